@@ -211,6 +211,30 @@ fn lag(rng: &mut Rng, i: u64) -> String {
     format!("c09 0 {} {} {}", parts.join("|"), sub, sched.join(","))
 }
 
+/// the history read fills the window and waits; an acknowledgement frees one slot, then the same acknowledgement is
+/// repeated (a retransmitted EACK frees nothing): never more than `win` records may be outstanding
+fn dup_ack(rng: &mut Rng, i: u64) -> String {
+    let target = rng.below(NP);
+    let win = *rng.pick(&[1u64, 2, 3]);
+    let pre = win + rng.range(4, 8);
+    let mut parts: Vec<String> = (0..NP).map(|_| "-".to_string()).collect();
+    parts[target as usize] = format!("1:0*{pre}");
+    let s0 = target * 4;
+    let sub = match i % 3 {
+        0 => format!("part/{target}/-/w{win}"),
+        1 => format!("stream/{s0}/-/w{win}"),
+        _ => format!("all/L/w{win}"),
+    };
+    let mut sched = vec!["S".to_string()];
+    if i % 3 == 2 { sched.push(format!("x{target}:0*{}", win + 4)); }    // `all/L` starts at the end: live events fill the window
+    let a = rng.below(win);
+    sched.push(format!("k{a}"));
+    for _ in 0..rng.range(2, 4) { sched.push(format!("k{a}")); }
+    sched.push("K".into()); sched.push("K".into());
+    sched.push("F".into());
+    format!("c09 0 {} {} {}", parts.join("|"), sub, sched.join(","))
+}
+
 /// the subscription is live and waits for an acknowledgement (it holds one received record) while more
 /// events than the channel holds are appended, confirmed and then broadcast at once: the events it still
 /// needs are dropped from the channel, only the history re-read after Lagged can deliver them
@@ -343,6 +367,7 @@ pub fn generate(rng: &mut Rng, thorough: bool) -> Vec<String> {
     // the single-stream and single-partition kinds every time, the other kinds in turn
     let off = rng.below(3);
     for i in 0..nll { let kind = match i { 0 => 1, 1 => 0, _ => 2 + (i + off) % 3 }; v.push(lag_live(rng, kind)); }
+    for i in 0..(if thorough { 24 } else { 6 }) { v.push(dup_ack(rng, i)); }
     for i in 0..nl { let j = i + rng.below(5); v.push(lag(rng, j)); }
     for i in 0..ns { v.push(small(rng, i)); }
     for i in 0..nb { v.push(batches(rng, i)); }
